@@ -120,6 +120,55 @@ mod sp {
         }
     }
 
+    /// the peer's default answer to a frame (in kind); second component: the conversation is over
+    pub fn default_answers(frame: &Frame, cfg: &PeerCfg) -> (Vec<Frame>, bool) {
+        let channel = frame.channel;
+        let mut out = Vec::new();
+        let mut stop = false;
+        match &frame.body {
+            FrameBody::Open(open) => {
+                let mut open = open.clone();
+                open.container_id = "scripted-peer".to_string();
+                open.idle_time_out = cfg.idle_time_out;
+                out.push(Frame::new(0u16, FrameBody::Open(open)));
+            }
+            FrameBody::Begin(begin) => {
+                let mut begin = begin.clone();
+                begin.remote_channel = Some(channel);
+                out.push(Frame::new(channel + cfg.channel_shift, FrameBody::Begin(begin)));
+            }
+            FrameBody::Attach(attach) => {
+                let mut attach = attach.clone();
+                let client_is_sender = matches!(attach.role, Role::Sender);
+                attach.role = if client_is_sender { Role::Receiver } else { Role::Sender };
+                attach.initial_delivery_count = if client_is_sender { None } else { Some(0) };
+                attach.unsettled = None;
+                let handle = attach.handle.clone();
+                out.push(Frame::new(channel + cfg.channel_shift, FrameBody::Attach(attach)));
+                if let (true, Some(credit)) = (client_is_sender, cfg.credit) {
+                    let flow = Flow { next_incoming_id: Some(0), incoming_window: 2048, next_outgoing_id: 0, outgoing_window: 2048, handle: Some(handle), delivery_count: Some(0), link_credit: Some(credit), available: None, drain: false, echo: false, properties: None };
+                    out.push(Frame::new(channel + cfg.channel_shift, FrameBody::Flow(flow)));
+                }
+            }
+            FrameBody::Detach(detach) => {
+                let mut detach = detach.clone();
+                detach.error = None;
+                out.push(Frame::new(channel + cfg.channel_shift, FrameBody::Detach(detach)));
+            }
+            FrameBody::End(_) => {
+                out.push(Frame::new(channel + cfg.channel_shift, FrameBody::End(End { error: None })));
+            }
+            FrameBody::Close(close) => {
+                let mut close = close.clone();
+                close.error = None;
+                out.push(Frame::new(0u16, FrameBody::Close(close)));
+                stop = true;
+            }
+            _ => {}
+        }
+        (out, stop)
+    }
+
     pub async fn run<R>(mut io: DuplexStream, cfg: PeerCfg, mut rule: R) -> Vec<String>
     where
         R: FnMut(&Frame, &[String]) -> Act + Send,
@@ -150,46 +199,12 @@ mod sp {
             if act.handled {
                 continue;
             }
-            let channel = frame.channel;
-            match frame.body {
-                FrameBody::Open(mut open) => {
-                    open.container_id = "scripted-peer".to_string();
-                    open.idle_time_out = cfg.idle_time_out;
-                    let _ = transport.send(Frame::new(0u16, FrameBody::Open(open))).await;
-                }
-                FrameBody::Begin(mut begin) => {
-                    begin.remote_channel = Some(channel);
-                    let _ = transport.send(Frame::new(channel + cfg.channel_shift, FrameBody::Begin(begin))).await;
-                }
-                FrameBody::Attach(mut attach) => {
-                    let client_is_sender = matches!(attach.role, Role::Sender);
-                    attach.role = if client_is_sender { Role::Receiver } else { Role::Sender };
-                    if client_is_sender {
-                        attach.initial_delivery_count = None;
-                    } else {
-                        attach.initial_delivery_count = Some(0);
-                    }
-                    attach.unsettled = None;
-                    let handle = attach.handle.clone();
-                    let _ = transport.send(Frame::new(channel + cfg.channel_shift, FrameBody::Attach(attach))).await;
-                    if let (true, Some(credit)) = (client_is_sender, cfg.credit) {
-                        let flow = Flow { next_incoming_id: Some(0), incoming_window: 2048, next_outgoing_id: 0, outgoing_window: 2048, handle: Some(handle), delivery_count: Some(0), link_credit: Some(credit), available: None, drain: false, echo: false, properties: None };
-                        let _ = transport.send(Frame::new(channel + cfg.channel_shift, FrameBody::Flow(flow))).await;
-                    }
-                }
-                FrameBody::Detach(mut detach) => {
-                    detach.error = None;
-                    let _ = transport.send(Frame::new(channel + cfg.channel_shift, FrameBody::Detach(detach))).await;
-                }
-                FrameBody::End(_) => {
-                    let _ = transport.send(Frame::new(channel + cfg.channel_shift, FrameBody::End(End { error: None }))).await;
-                }
-                FrameBody::Close(mut close) => {
-                    close.error = None;
-                    let _ = transport.send(Frame::new(0u16, FrameBody::Close(close))).await;
-                    break;
-                }
-                _ => {}
+            let (replies, stop) = default_answers(&frame, &cfg);
+            for r in replies {
+                let _ = transport.send(r).await;
+            }
+            if stop {
+                break;
             }
         }
         log
@@ -290,6 +305,13 @@ fn main() {
                     Err(_) => String::new(),
                 };
                 format!("{{\"ok\":{},\"frames\":[{}],{}}}", out.is_ok(), frames, counters_json(&s.counters(), sidx(s.local_state())))
+            }
+            // xfer_in <9 session nums> <handle>: one incoming transfer frame for a handle no link is attached to
+            "xfer_in" => {
+                let mut s = mk_session(&nums[..9]);
+                let t = Transfer { handle: Handle(nums[9] as u32), delivery_id: Some(0), delivery_tag: Some(ByteBuf::from(vec![1u8])), message_format: Some(0), settled: Some(true), more: false, rcv_settle_mode: None, state: None, resume: false, aborted: false, batchable: false };
+                let out = poll(s.on_incoming_transfer(t, Bytes::from_static(b"x")));
+                format!("{{\"ready\":{},\"ok\":{},{}}}", out.is_some(), matches!(out, Some(Ok(()))), counters_json(&s.counters(), sidx(s.local_state())))
             }
             // flow <9 session nums> <nii_present> <nii> <incoming_window> <next_outgoing_id> <outgoing_window>
             "flow" => {
@@ -758,7 +780,7 @@ fn main() {
                         let _ = peer_io.write_all(b"AMQP\x03\x01\x00\x00").await;
                         write_frame(&mut peer_io, SFrame::Mechanisms(SaslMechanisms { sasl_server_mechanisms: Array::from(vec![Symbol::from("SCRAM-SHA-256")]) })).await;
                         let init = read_frame(&mut peer_io).await;
-                        if script == 2 {
+                        if script >= 2 {
                             // server-first built from the client's nonce so that the client accepts it
                             let client_first = match init {
                                 Some(SFrame::Init(i)) => i.initial_response.map(|b| b.to_vec()).unwrap_or_default(),
@@ -770,7 +792,13 @@ fn main() {
                             write_frame(&mut peer_io, SFrame::Challenge(SaslChallenge { challenge: Binary::from(server_first.into_bytes()) })).await;
                             let _ = read_frame(&mut peer_io).await;
                         }
-                        let data = if script == 1 { Some(Binary::from(b"v=AAAAAAAAAAAAAAAAAAAAAAAAAAAAAAAAAAAAAAAAAAA=".to_vec())) } else { None };
+                        // 3: a full exchange ending in an EMPTY verifier; 4: the same with a trailing extension
+                        let data = match script {
+                            1 => Some(Binary::from(b"v=AAAAAAAAAAAAAAAAAAAAAAAAAAAAAAAAAAAAAAAAAAA=".to_vec())),
+                            3 => Some(Binary::from(b"v=".to_vec())),
+                            4 => Some(Binary::from(b"v=,x=y".to_vec())),
+                            _ => None,
+                        };
                         write_frame(&mut peer_io, SFrame::Outcome(SaslOutcome { code: SaslCode::Ok, additional_data: data })).await;
                         // an authenticated client now starts the AMQP layer
                         let mut hdr2 = [0u8; 8];
@@ -1482,6 +1510,253 @@ fn main() {
                                 None => false,
                             };
                             format!("{{\"client\":\"{}\",\"answered_in_kind\":{},\"log\":{}}}", client.unwrap_or_else(|e| e), answered, sp::json_list(&log))
+                        }
+                        // pipelined_open: the peer writes its protocol header AND its open in ONE write before it reads
+                        //   anything (legal pipelining); pipelined_sasl: the peer writes the SASL header + mechanisms in one
+                        //   write, and after the client's init it writes outcome + AMQP header + open in one write. The
+                        //   client must open the connection (the frames behind the header must not be lost).
+                        "pipelined_open" | "pipelined_sasl" => {
+                            use bytes::{BufMut, BytesMut};
+                            use fe2o3_amqp::frames::sasl::{Frame as SFrame, FrameCodec};
+                            use fe2o3_amqp_types::performatives::{ChannelMax, MaxFrameSize, Open};
+                            use fe2o3_amqp_types::primitives::{Array, Symbol};
+                            use fe2o3_amqp_types::sasl::{SaslCode, SaslMechanisms, SaslOutcome};
+                            use tokio::io::{AsyncReadExt, AsyncWriteExt};
+                            use tokio_util::codec::Encoder;
+                            let sasl = name == "pipelined_sasl";
+                            fn wire(frame: Frame) -> Vec<u8> {
+                                let mut enc = frame_encoder(512);
+                                let mut body = BytesMut::new();
+                                enc.encode(frame, &mut body).unwrap();
+                                let mut v = Vec::new();
+                                v.put_u32(body.len() as u32 + 4);
+                                v.extend_from_slice(&body);
+                                v
+                            }
+                            fn swire(f: SFrame) -> Vec<u8> {
+                                let mut body = BytesMut::new();
+                                FrameCodec {}.encode(f, &mut body).unwrap();
+                                let mut v = Vec::new();
+                                v.put_u32(body.len() as u32 + 4);
+                                v.extend_from_slice(&body);
+                                v
+                            }
+                            let mut peer_io = peer_io;
+                            let peer = tokio::spawn(async move {
+                                let open = Open { container_id: "peer".to_string(), hostname: None, max_frame_size: MaxFrameSize(512), channel_max: ChannelMax(10), idle_time_out: None, outgoing_locales: None, incoming_locales: None, offered_capabilities: None, desired_capabilities: None, properties: None };
+                                let mut amqp_part = b"AMQP\x00\x01\x00\x00".to_vec();
+                                amqp_part.extend_from_slice(&wire(Frame::new(0u16, FrameBody::Open(open))));
+                                if sasl {
+                                    let mut first = b"AMQP\x03\x01\x00\x00".to_vec();
+                                    first.extend_from_slice(&swire(SFrame::Mechanisms(SaslMechanisms { sasl_server_mechanisms: Array::from(vec![Symbol::from("PLAIN")]) })));
+                                    let _ = peer_io.write_all(&first).await;
+                                    let mut hdr = [0u8; 8];
+                                    let _ = peer_io.read_exact(&mut hdr).await;
+                                    if let Ok(n) = peer_io.read_u32().await {
+                                        let mut body = vec![0u8; (n as usize).saturating_sub(4)];
+                                        let _ = peer_io.read_exact(&mut body).await;
+                                    }
+                                    let mut second = swire(SFrame::Outcome(SaslOutcome { code: SaslCode::Ok, additional_data: None }));
+                                    second.extend_from_slice(&amqp_part);
+                                    let _ = peer_io.write_all(&second).await;
+                                } else {
+                                    let _ = peer_io.write_all(&amqp_part).await;
+                                }
+                                // swallow whatever the client sends until it goes away
+                                let mut sink = [0u8; 256];
+                                loop {
+                                    match tokio::time::timeout(Duration::from_millis(1500), peer_io.read(&mut sink)).await {
+                                        Ok(Ok(n)) if n > 0 => continue,
+                                        _ => break,
+                                    }
+                                }
+                            });
+                            let client = tokio::time::timeout(Duration::from_millis(2500), async {
+                                let b = fe2o3_amqp::Connection::builder().container_id("client");
+                                let b = if sasl { b.sasl_profile(fe2o3_amqp::sasl_profile::SaslProfile::Plain { username: "user".to_string(), password: "pw".to_string() }) } else { b };
+                                match b.open_with_stream(client_io).await {
+                                    Ok(conn) => {
+                                        drop(conn);
+                                        "opened"
+                                    }
+                                    Err(_) => "open_failed",
+                                }
+                            })
+                            .await
+                            .unwrap_or("hang");
+                            peer.abort();
+                            format!("{{\"client\":\"{}\"}}", client)
+                        }
+                        // shifted_channels <k>: the peer numbers its channels independently of ours (its channel = ours + k).
+                        //   begin / attach / detach / end / close must all work.
+                        "shifted_channels" => {
+                            let shift = arg.first().copied().unwrap_or(7) as u16;
+                            let cfg = sp::PeerCfg { channel_shift: shift, ..Default::default() };
+                            let peer = tokio::spawn(sp::run(peer_io, cfg, |_f: &Frame, _log: &[String]| sp::Act::default()));
+                            let client = tokio::time::timeout(Duration::from_secs(6), async {
+                                let mut conn = fe2o3_amqp::Connection::builder().container_id("client").open_with_stream(client_io).await.map_err(|_| "open_failed")?;
+                                let mut s1 = fe2o3_amqp::Session::begin(&mut conn).await.map_err(|_| "begin1_failed")?;
+                                let mut s2 = fe2o3_amqp::Session::begin(&mut conn).await.map_err(|_| "begin2_failed")?;
+                                let a = fe2o3_amqp::Sender::attach(&mut s1, "link-a", "q1").await.map_err(|_| "attach1_failed")?;
+                                let b = fe2o3_amqp::Sender::attach(&mut s2, "link-b", "q2").await.map_err(|_| "attach2_failed")?;
+                                a.close().await.map_err(|_| "close_link1_failed")?;
+                                b.close().await.map_err(|_| "close_link2_failed")?;
+                                s1.end().await.map_err(|_| "end1_failed")?;
+                                s2.end().await.map_err(|_| "end2_failed")?;
+                                conn.close().await.map_err(|_| "close_failed")?;
+                                Ok::<_, &'static str>("ok")
+                            })
+                            .await
+                            .unwrap_or(Err("hang"));
+                            let log = tokio::time::timeout(Duration::from_secs(2), peer).await.ok().and_then(|r| r.ok()).unwrap_or_default();
+                            format!("{{\"client\":\"{}\",\"log\":{}}}", client.unwrap_or_else(|e| e), sp::json_list(&log))
+                        }
+                        // silent_after_error_close: the client (idle_time_out 300 ms) is sent a flow on a channel it never
+                        //   began, closes with an error, and the peer then neither answers nor hangs up. The client's engine
+                        //   must stop (its own idle time-out ends the wait) and report; it must not spin. The client runs on
+                        //   its own thread so that a spinning engine cannot starve the watchdog.
+                        "silent_after_error_close" => {
+                            use fe2o3_amqp_types::performatives::Flow;
+                            let cfg = sp::PeerCfg::default();
+                            let peer = tokio::spawn(sp::run(peer_io, sp::PeerCfg::default(), move |f: &Frame, _log: &[String]| {
+                                let mut act = sp::Act::default();
+                                match &f.body {
+                                    FrameBody::Open(_) => {
+                                        act.replies = sp::default_answers(f, &cfg).0;
+                                        act.replies.push(Frame::new(5u16, FrameBody::Flow(Flow { next_incoming_id: Some(0), incoming_window: 10, next_outgoing_id: 0, outgoing_window: 10, handle: None, delivery_count: None, link_credit: None, available: None, drain: false, echo: false, properties: None })));
+                                        act.handled = true;
+                                    }
+                                    // stay silent, keep the stream open
+                                    FrameBody::Close(_) => act.handled = true,
+                                    _ => {}
+                                }
+                                act
+                            }));
+                            let (tx, rx) = std::sync::mpsc::channel::<&'static str>();
+                            std::thread::spawn(move || {
+                                let rt = tokio::runtime::Builder::new_current_thread().enable_time().build().unwrap();
+                                let r = rt.block_on(async move {
+                                    let mut conn = match fe2o3_amqp::Connection::builder().container_id("client").idle_time_out(300u32).open_with_stream(client_io).await {
+                                        Ok(c) => c,
+                                        Err(_) => return "open_failed",
+                                    };
+                                    match conn.on_close().await {
+                                        Ok(()) => "stopped_ok",
+                                        Err(_) => "stopped_err",
+                                    }
+                                });
+                                let _ = tx.send(r);
+                            });
+                            let mut waited = 0;
+                            let client = loop {
+                                if let Ok(r) = rx.try_recv() {
+                                    break r;
+                                }
+                                if waited >= 4000 {
+                                    break "still_running";
+                                }
+                                tokio::time::sleep(Duration::from_millis(50)).await;
+                                waited += 50;
+                            };
+                            peer.abort();
+                            let out = format!("{{\"client\":\"{}\",\"waited_ms\":{}}}", client, waited);
+                            if client == "still_running" {
+                                // the stuck thread cannot be joined: report and leave
+                                println!("{}", out);
+                                std::process::exit(0);
+                            }
+                            out
+                        }
+                        // drain_reply <echo>: the peer grants a client-side sender 5 credits with drain=true (echo as given);
+                        //   the sender has nothing to send: it must answer with a flow showing link-credit 0
+                        "drain_reply" => {
+                            use fe2o3_amqp_types::performatives::Flow;
+                            let echo = arg.first().copied().unwrap_or(0) == 1;
+                            let cfg = sp::PeerCfg { credit: None, ..Default::default() };
+                            let peer = tokio::spawn(sp::run(peer_io, sp::PeerCfg { credit: None, ..Default::default() }, move |f: &Frame, _log: &[String]| {
+                                let mut act = sp::Act::default();
+                                if let FrameBody::Attach(a) = &f.body {
+                                    act.replies = sp::default_answers(f, &cfg).0;
+                                    act.replies.push(Frame::new(f.channel, FrameBody::Flow(Flow { next_incoming_id: Some(0), incoming_window: 2048, next_outgoing_id: 0, outgoing_window: 2048, handle: Some(a.handle.clone()), delivery_count: Some(0), link_credit: Some(5), available: None, drain: true, echo, properties: None })));
+                                    act.handled = true;
+                                }
+                                act
+                            }));
+                            let client = tokio::time::timeout(Duration::from_secs(6), async {
+                                let mut conn = fe2o3_amqp::Connection::builder().container_id("client").open_with_stream(client_io).await.map_err(|_| "open_failed")?;
+                                let mut session = fe2o3_amqp::Session::begin(&mut conn).await.map_err(|_| "begin_failed")?;
+                                let sender = fe2o3_amqp::Sender::attach(&mut session, "link-1", "q1").await.map_err(|_| "attach_failed")?;
+                                tokio::time::sleep(Duration::from_millis(400)).await;
+                                let _ = tokio::time::timeout(Duration::from_secs(1), sender.close()).await;
+                                let _ = tokio::time::timeout(Duration::from_secs(1), session.end()).await;
+                                let _ = tokio::time::timeout(Duration::from_secs(1), conn.close()).await;
+                                Ok::<_, &'static str>("ok")
+                            })
+                            .await
+                            .unwrap_or(Err("hang"));
+                            let log = tokio::time::timeout(Duration::from_secs(2), peer).await.ok().and_then(|r| r.ok()).unwrap_or_default();
+                            let answered = log.iter().any(|l| l.starts_with("flow:hSome(") && l.contains(":creditSome(0):"));
+                            format!("{{\"client\":\"{}\",\"answered_with_zero_credit\":{},\"log\":{}}}", client.unwrap_or_else(|e| e), answered, sp::json_list(&log))
+                        }
+                        // undecodable_delivery: a client-side receiver in manual credit mode issues 2 credits; the peer sends
+                        //   delivery 0 (a string body; the client asks for u32: decode error), delivery 1 (u32) and delivery 2
+                        //   (beyond the credit). Then: the next flow must report delivery-count 2 ... unless the overrun was
+                        //   (correctly) refused first; reports whether the third delivery was handed to the application.
+                        "undecodable_delivery" => {
+                            use fe2o3_amqp_types::definitions::Handle;
+                            use fe2o3_amqp_types::performatives::Transfer;
+                            use fe2o3_amqp_types::primitives::Binary;
+                            let mode = arg.first().copied().unwrap_or(0);
+                            fn xfer(ch: u16, handle: Handle, id: u32, body: &'static [u8]) -> Frame {
+                                let performative = Transfer { handle, delivery_id: Some(id), delivery_tag: Some(Binary::from(id.to_be_bytes().to_vec())), message_format: Some(0), settled: Some(true), more: false, rcv_settle_mode: None, state: None, resume: false, aborted: false, batchable: false };
+                                Frame::new(ch, FrameBody::Transfer { performative, payload: Bytes::from_static(body) })
+                            }
+                            const GOOD: &[u8] = &[0x00, 0x53, 0x77, 0x52, 0x07];
+                            const BAD: &[u8] = &[0x00, 0x53, 0x77, 0xa1, 0x03, b'b', b'a', b'd'];
+                            let mut sent = false;
+                            let peer = tokio::spawn(sp::run(peer_io, sp::PeerCfg::default(), move |f: &Frame, _log: &[String]| {
+                                let mut act = sp::Act::default();
+                                if let FrameBody::Flow(fl) = &f.body {
+                                    if let (Some(h), Some(2), false) = (fl.handle.clone(), fl.link_credit, sent) {
+                                        sent = true;
+                                        act.replies.push(xfer(f.channel, h.clone(), 0, BAD));
+                                        act.replies.push(xfer(f.channel, h.clone(), 1, GOOD));
+                                        if mode == 1 {
+                                            act.replies.push(xfer(f.channel, h, 2, GOOD));
+                                        }
+                                    }
+                                }
+                                act
+                            }));
+                            let client = tokio::time::timeout(Duration::from_secs(8), async {
+                                let mut conn = fe2o3_amqp::Connection::builder().container_id("client").open_with_stream(client_io).await.map_err(|_| "open_failed".to_string())?;
+                                let mut session = fe2o3_amqp::Session::begin(&mut conn).await.map_err(|_| "begin_failed".to_string())?;
+                                let mut receiver = fe2o3_amqp::Receiver::builder().name("r-1").source("q1").credit_mode(fe2o3_amqp::link::receiver::CreditMode::Manual).attach(&mut session).await.map_err(|_| "attach_failed".to_string())?;
+                                receiver.set_credit(2).await.map_err(|_| "set_credit_failed".to_string())?;
+                                let first = tokio::time::timeout(Duration::from_secs(2), receiver.recv::<u32>()).await;
+                                let second = tokio::time::timeout(Duration::from_secs(2), receiver.recv::<u32>()).await;
+                                let mut third_accepted = false;
+                                if mode == 1 {
+                                    let third = tokio::time::timeout(Duration::from_millis(800), receiver.recv::<u32>()).await;
+                                    third_accepted = matches!(third, Ok(Ok(_)));
+                                } else {
+                                    let _ = receiver.set_credit(5).await;
+                                    tokio::time::sleep(Duration::from_millis(200)).await;
+                                }
+                                let summary = format!("{}/{}", match &first { Ok(Ok(_)) => "ok", Ok(Err(_)) => "err", Err(_) => "timeout" }, match &second { Ok(Ok(_)) => "ok", Ok(Err(_)) => "err", Err(_) => "timeout" });
+                                let _ = tokio::time::timeout(Duration::from_secs(1), receiver.close()).await;
+                                let _ = tokio::time::timeout(Duration::from_secs(1), session.end()).await;
+                                let _ = tokio::time::timeout(Duration::from_secs(1), conn.close()).await;
+                                Ok::<_, String>((summary, third_accepted))
+                            })
+                            .await
+                            .unwrap_or(Err("hang".to_string()));
+                            let log = tokio::time::timeout(Duration::from_secs(2), peer).await.ok().and_then(|r| r.ok()).unwrap_or_default();
+                            // the delivery-count of the flow that grants 5 credits
+                            let dc = log.iter().find(|l| l.starts_with("flow:hSome(") && l.contains(":creditSome(5):")).and_then(|l| l.split(":dcSome(").nth(1)).and_then(|t| t.split(')').next()).and_then(|t| t.parse::<i64>().ok());
+                            let (summary, third) = client.clone().unwrap_or_else(|e| (e, false));
+                            let dc_out = if mode == 1 { 2 } else { dc.unwrap_or(-1) };
+                            format!("{{\"client\":\"{}\",\"flow_delivery_count\":{},\"third_accepted\":{},\"log\":{}}}", summary, dc_out, third, sp::json_list(&log))
                         }
                         _ => "{\"error\":\"unknown scenario\"}".to_string(),
                     }
